@@ -33,7 +33,7 @@ cls("SmilesToken", "token", bases=["BigSMILESbase"],
 
 cls("Distribution", "distribution", bases=["BigSMILESbase"], _raw_text=STR, _distribution=Opaque("ScipyDist", True))
 for _n, _f in (("FlorySchulz", dict(_a=REAL)), ("SchulzZimm", dict(_Mw=REAL, _Mn=REAL, _z=REAL)),
-               ("Gauss", dict(_mu=REAL, _sigma=REAL)), ("Uniform", dict(_low=INT, _high=INT)),
+               ("Gauss", dict(_mu=REAL, _sigma=REAL)), ("Uniform", dict(_low=REAL, _high=REAL)),
                ("LogNormal", dict(_M=REAL, _D=REAL)), ("Poisson", dict(_N=REAL))):
     cls(_n, "distribution", bases=["Distribution"], **_f)
 R.CLASSES["Distribution"]["abstract"] = True
@@ -74,6 +74,9 @@ ghost("last_rng", GENERATOR)                 # generator object used
 ghost("draws", INT)                          # number of draw_mw calls
 ghost("last_draw", REAL)                     # value of the last draw
 ghost("last_draw_rng", GENERATOR)
+ghost("last_draw_family", INT)               # law of the last draw: LAW.NORM / UNIFORM / POISSON / FS / SZ / LN ...
+ghost("last_draw_p1", REAL)                  # ... and the two parameters it was sampled with
+ghost("last_draw_p2", REAL)
 ghost("units", INT)                          # repeat units added by the current stochastic object
 ghost("mass_after", ("map", INT, REAL))      # heavy-atom mass of the growing molecule after q units
 ghost("open_after", ("map", INT, INT))       # open descriptors after q units
